@@ -423,6 +423,51 @@ def c11_closure(m, loaded):
     return out
 
 
+FOREIGN_KINDS = ("passthrough", "rewriter")
+FOREIGN_PLACES = ("front", "before-pathfinder")
+
+
+class ForeignFinder:
+    """A meta-path finder that does NOT belong to jaxtyping and can load the forest's modules: a thin
+    wrapper around PathFinder, as third-party import hooks are.  kind "passthrough": returns PathFinder's
+    spec as it is (an import logger / profiler); kind "rewriter": returns a spec whose loader is the finder
+    itself, which compiles and executes the source file unmodified (the shape of pytest's
+    AssertionRewritingHook: PathFinder.find_spec, then spec_from_file_location(loader=self)).  Either way a
+    module whose spec comes from this finder is loaded plain."""
+
+    def __init__(self, kind, tops):
+        if kind not in FOREIGN_KINDS:
+            raise common.HarnessError(f"unknown foreign finder kind {kind!r}")
+        self.kind = kind
+        self.tops = frozenset(tops)
+
+    def find_spec(self, fullname, path=None, target=None):
+        import importlib.machinery
+        import importlib.util
+
+        if fullname.split(".")[0] not in self.tops:
+            return None
+        spec = importlib.machinery.PathFinder.find_spec(fullname, path, target)
+        if spec is None or self.kind == "passthrough":
+            return spec
+        if spec.origin is None or not isinstance(spec.loader, importlib.machinery.SourceFileLoader):
+            return None
+        return importlib.util.spec_from_file_location(fullname, spec.origin, loader=self, submodule_search_locations=spec.submodule_search_locations)
+
+    def create_module(self, spec):
+        return None
+
+    def exec_module(self, module):
+        fn = module.__spec__.origin
+        with open(fn, "rb") as f:
+            src = f.read()
+        exec(compile(src, fn, "exec", dont_inherit=True), module.__dict__)
+
+
+def remove_foreign():
+    sys.meta_path[:] = [f for f in sys.meta_path if not isinstance(f, ForeignFinder)]
+
+
 class ForestWorld:
     def __init__(self, parent_tmp):
         import tempfile
@@ -440,6 +485,8 @@ class ForestWorld:
         sys.dont_write_bytecode = True
         sys.path.insert(0, self.root)
         self.records = []
+        self.foreign = []  # foreign finders put on sys.meta_path by the history: dict(kind, place, finder, alive, t)
+        self.clock = 0  # installs and foreign finders are numbered in the order in which the history made them ("t")
         self._parser_ok = None
 
     def close(self):
@@ -477,10 +524,13 @@ class ForestWorld:
         self._purge_all()
         restore_cache_from_source()
         remove_hooks()
+        remove_foreign()
         hook_reset()  # the whole hook machinery as a fresh process has it (incl. an empty Typechecker.lookup)
         importlib.invalidate_caches()
         spyck.clear()
         self.records = []
+        self.foreign = []
+        self.clock = 0
 
     def _handles(self):
         out = []
@@ -500,18 +550,24 @@ class ForestWorld:
             [r["alive"] for r in self.records],
             len(spyck.DECOS),
             len(spyck.CALLS),
+            [r["alive"] for r in self.foreign],
+            self.clock,
         )
 
     def restore(self, snap):
         from .fixtures import spyck
 
-        meta, loaded, hs, alive, nd, nc = snap
+        meta, loaded, hs, alive, nd, nc, falive, clock = snap
         sys.meta_path[:] = meta
         self._purge(keep=loaded)
         hs.restore()
         del self.records[len(alive):]
         for r, a in zip(self.records, alive):
             r["alive"] = a
+        del self.foreign[len(falive):]
+        for r, a in zip(self.foreign, falive):
+            r["alive"] = a
+        self.clock = clock
         del spyck.DECOS[nd:]
         del spyck.CALLS[nc:]
 
@@ -582,8 +638,33 @@ class ForestWorld:
             except Exception as e:  # noqa: BLE001
                 outcome = f"raised:{type(e).__name__}"
             new = [f for f in sys.meta_path if not any(f is g for g in before)]
-            self.records.append(dict(names=tuple(names), ck=ck, handle=mgr, finders=new, alive=(outcome == "ok")))
+            self.clock += 1
+            self.records.append(dict(names=tuple(names), ck=ck, handle=mgr, finders=new, alive=(outcome == "ok"), t=self.clock))
             return dict(outcome=outcome, new=[])
+        if kind == "foreign":
+            # somebody else's finder comes and goes (the harness's own list operations; the library is not called)
+            if op[1] == "add":
+                _, _, fkind, place = op
+                f = ForeignFinder(fkind, C11_TOPS)
+                if place == "front":
+                    sys.meta_path.insert(0, f)
+                elif place == "before-pathfinder":
+                    sys.meta_path.insert(pathfinder_index(), f)
+                else:
+                    raise common.HarnessError(f"unknown place {place!r}")
+                self.clock += 1
+                self.foreign.append(dict(kind=fkind, place=place, finder=f, alive=True, t=self.clock))
+                return dict(outcome="ok", new=[])
+            if op[1] == "remove":
+                rec = self.foreign[op[2]]
+                outcome = "ok"
+                if any(f is rec["finder"] for f in sys.meta_path):
+                    sys.meta_path[:] = [f for f in sys.meta_path if f is not rec["finder"]]
+                else:
+                    outcome = "gone"  # something else took it off sys.meta_path
+                rec["alive"] = False
+                return dict(outcome=outcome, new=[])
+            raise common.HarnessError(f"unknown op {op!r}")
         if kind in ("uninstall", "leave"):
             rec = self.records[op[1]]
             outcome = "ok"
@@ -623,7 +704,18 @@ class ForestWorld:
             for f in r["finders"]:
                 owner[id(f)] = i
         seen = set()
+        fown = {id(r["finder"]): r for r in self.foreign}
         for pos, f in enumerate(sys.meta_path):
+            if id(f) in fown:
+                # somebody else's finder: kind, where it was put, where it is, and which live installs were made AFTER it
+                # (the oracle's don't-care depends on that order, so it is part of the state)
+                r = fown[id(f)]
+                later = [q for q in self.records if q["alive"] and q["t"] > r["t"]]
+                out.append(
+                    "~" + r["kind"] + "@" + r["place"] + ("" if r["alive"] else "!removed") + ("" if pos < pf else "!late")
+                    + "<" + "/".join("+".join(q["names"]) + "=" + (q["ck"] or "n") for q in later)
+                )
+                continue
             if id(f) in owner:
                 r = self.records[owner[id(f)]]
                 seen.add(owner[id(f)])
@@ -635,6 +727,9 @@ class ForestWorld:
         for i, r in enumerate(self.records):
             if r["alive"] and i not in seen:
                 out.append("+".join(r["names"]) + "=" + (r["ck"] or "n") + "!absent")
+        for r in self.foreign:
+            if r["alive"] and not any(f is r["finder"] for f in sys.meta_path):
+                out.append("~" + r["kind"] + "@" + r["place"] + "!absent")
         return ",".join(out)
 
     def observe(self, new=(), make_all=False, strict=False, build_new=True, build_all=True, nested_illtyped=None):
@@ -681,9 +776,14 @@ class ForestWorld:
 
 class CellWorld:
     """The IPython route: a real InteractiveShell, the real extension and magic;
-    cells stand for modules."""
+    cells stand for modules.  Two kinds of cell: ("cell", k) defines one function g<k>;
+    ("rich", k) is a whole forest module as a cell (function r<k>, dataclass D<k>, factory make<k> whose
+    def / class statements are executed when it is called) - more definitions per cell, so more syntax
+    nodes per transformation.  ("gc",) runs a full garbage collection between cells (the trees of earlier
+    cells are gone for good before the next cell is parsed)."""
 
     CELL = "import numpy as np\nfrom jaxtyping import Float\n" + FUNC_SRC.replace("def f(", "def g{k}(")
+    RICH = FOREST_SRC.format(imports="").replace("def f(", "def r{k}(").replace("def make(", "def make{k}(").replace("class D:", "class D{k}:")
 
     def __init__(self):
         from IPython.core.interactiveshell import InteractiveShell
@@ -706,19 +806,42 @@ class CellWorld:
         from .fixtures import spyck
 
         if op[0] == "magic":
-            self.shell.run_line_magic("jaxtyping.typechecker", spyck.PATH[op[1]])
+            try:
+                self.shell.run_line_magic("jaxtyping.typechecker", spyck.PATH[op[1]])
+            except Exception as e:  # noqa: BLE001 - what the library does is a result, never a harness error
+                return f"raised:{type(e).__name__}"
             return "ok"
-        if op[0] == "cell":
-            r = self.shell.run_cell(self.CELL.replace("{k}", str(op[1])), store_history=False, silent=True)
+        if op[0] in ("cell", "rich"):
+            src = (self.CELL if op[0] == "cell" else self.RICH).replace("{k}", str(op[1]))
+            for name in ((f"g{op[1]}",) if op[0] == "cell" else (f"r{op[1]}", f"D{op[1]}", f"make{op[1]}")):
+                self.shell.user_ns.pop(name, None)  # what is observed afterwards was defined by THIS cell
+            r = self.shell.run_cell(src, store_history=False, silent=True)
             return "ok" if r.success else f"raised:{type(r.error_in_exec or r.error_before_exec).__name__}"
+        if op[0] == "gc":
+            import gc
+
+            gc.collect()
+            return "ok"
         raise common.HarnessError(f"unknown cell op {op!r}")
 
     def observe(self):
+        """-> tags: g<k> / r<k> -> tag of the function; for a rich cell also "r<k>.D" (dataclass probe),
+        "r<k>.make" / "r<k>.build" (what the factory defines NOW)."""
         tags = {}
+        ns = self.shell.user_ns
         for k in (0, 1):
-            g = self.shell.user_ns.get(f"g{k}")
+            g = ns.get(f"g{k}")
             if g is not None:
                 tags[f"g{k}"] = probe_callable(g)
+            r = ns.get(f"r{k}")
+            if r is not None:
+                tags[f"r{k}"] = probe_callable(r)
+                D, make = ns.get(f"D{k}"), ns.get(f"make{k}")
+                if D is not None:
+                    tags[f"r{k}.D"] = probe_callable(D)
+                if make is not None:
+                    tags[f"r{k}.make"] = probe_factory(make)
+                    tags[f"r{k}.build"] = probe_factory(lambda: make(True))
         return tags
 
 
@@ -791,7 +914,12 @@ class CacheWorld:
     def __init__(self, parent_tmp, modules):
         import tempfile
 
-        self.root = tempfile.mkdtemp(prefix="c18_", dir=parent_tmp)
+        # the directory on sys.path is a SYMLINK to the real one (source trees reached through
+        # links are common: editable installs, bazel, nix); a plain path is the special case in
+        # which resolving the link changes nothing
+        self.real_root = tempfile.mkdtemp(prefix="c18_", dir=parent_tmp)
+        self.root = self.real_root + "_link"
+        os.symlink(self.real_root, self.root)
         self.cache = os.path.join(self.root, "__pycache__")
         self.modules = list(modules)
         self.hash_names = _hash_names()
@@ -811,7 +939,11 @@ class CacheWorld:
         self.purge()
         if self.root in sys.path:
             sys.path.remove(self.root)
-        shutil.rmtree(self.root, ignore_errors=True)
+        try:
+            os.unlink(self.root)
+        except OSError:
+            pass
+        shutil.rmtree(self.real_root, ignore_errors=True)
 
     def initial(self):
         return dict(src={m: [0, C18_BASE_MTIME] for m in self.modules}, pyc={})
